@@ -50,6 +50,19 @@ Proof.
   - split; vm_compute; reflexivity.
 Qed.
 
+(* the theorem quantifies over every value of the counter, the roll-over included: a renewal that fails right after the
+   counter has wrapped (its OPN took number 1) still hands its numbers over; the next chunk carries 2 *)
+Example C11_failed_renewal_across_roll_over : exists s,
+  reachable 4294966271 1 s /\ wire_ok s /\
+  map (fun x => fst (fst (fst x))) (wire_obs s) = [4294966272; 1; 2].
+Proof.
+  eexists. split.
+  - exists [ESpawn 0; EGate 0; EActive 0; EId 0; ELockI 0; EChunk 0; EUnlockI 0; EDone 0;
+            ERenStart; ERenGate; ERenDrain; ERenLock; ERenCopy; ERenOpn; ERenFail; ERenUnlock;
+            ESpawn 0; EGate 1; EActive 1; EId 1; ELockI 1; EChunk 1]%nat. vm_compute. reflexivity.
+  - split; [split; vm_compute; reflexivity|vm_compute; reflexivity].
+Qed.
+
 (* the renewal cannot overtake a counted sender: while any sender is between the gate and pendingReq.Done the
    renewer's pendingReq.Wait() step is not enabled *)
 Theorem C11_renewal_waits_for_counted_senders : forall seq0 req0 s i,
